@@ -86,7 +86,96 @@ fn one<const D: usize>(id: &str, ps: &gens::PointSet, robust: bool, flips: usize
     }
 }
 
+/// every state within `depth` legal flips of a small triangulation, each judged by all verdict APIs
+/// (breadth first, states identified by their cell sets).  Input family: a base simplex F in the
+/// hyperplane x_D = 0 and two apexes above and below a point ON THE BOUNDARY of F, so that the k=2
+/// flip of F is degenerate, plus small general-position sets.
+fn explore<const D: usize>(id: &str, pts: &[Vec<f64>], fam: &str, depth: usize, cap: usize, rng: &mut Rng, out: &mut Out) {
+    let vs = tri::make_vertices::<D>(pts, rng);
+    let opts = Opts { order: 3, dedup: 0, simplex: 0, retry: 0 };
+    let Ok(Ok(mut dt0)) = tri::build_fast::<D>(&vs, 1, &opts) else { return };
+    dt0.set_delaunay_repair_policy(delaunay::core::delaunay_triangulation::DelaunayRepairPolicy::Never);
+    let sig = |dt: &tri::DtF<D>| -> String {
+        let mut cs: Vec<String> = dt.cells().map(|(_, c)| { let mut v: Vec<String> = c.vertices().iter().filter_map(|k| dt.tds().get_vertex_by_key(*k)).map(|v| v.uuid().to_string()).collect(); v.sort(); v.join(",") }).collect();
+        cs.sort();
+        cs.join(";")
+    };
+    let mut seen: std::collections::HashSet<String> = std::collections::HashSet::new();
+    seen.insert(sig(&dt0));
+    let mut frontier: Vec<(tri::DtF<D>, usize)> = vec![(dt0, 0)];
+    let mut n = 0usize;
+    while let Some((dt, d)) = frontier.pop() {
+        if n >= cap { break; }
+        let mut ids = Ids::default();
+        out.case(&format!("{id}_{n}"), "cx", &format!("D={D} fam={fam} gp=0 g=1 kernel=fast expect={} flips={d} removals=0", if d == 0 { "valid123" } else { "valid12m" }));
+        tri::export(&dt, &mut ids, out);
+        tri::observe_validators(&dt, out, true);
+        out.end();
+        n += 1;
+        if d >= depth { continue; }
+        let handles: Vec<(delaunay::core::triangulation_data_structure::CellKey, u8, u8)> = dt.cells().flat_map(|(ck, _)| {
+            let mut v = Vec::new();
+            for a in 0..=(D as u8) { v.push((ck, a, a)); for b in (a + 1)..=(D as u8) { v.push((ck, a, b)); } }
+            v
+        }).collect();
+        for (ck, a, b) in handles {
+            let mut c = dt.clone();
+            let ok = if a == b { crate::common::catch(|| c.flip_k2(FacetHandle::new(ck, a)).is_ok()) }
+                else if D >= 3 { crate::common::catch(|| c.flip_k3(RidgeHandle::new(ck, a, b)).is_ok()) } else { Ok(false) };
+            if ok == Ok(true) && seen.insert(sig(&c)) { frontier.insert(0, (c, d + 1)); }
+            // inverse moves from the edges / triangles of this cell reach states the forward moves cannot
+            if a != b && D >= 3 {
+                let mut c2 = dt.clone();
+                let vsk = dt.tds().get_cell(ck).map(|x| x.vertices().to_vec()).unwrap_or_default();
+                if vsk.len() > b as usize {
+                    let ok2 = crate::common::catch(|| c2.flip_k2_inverse_from_edge(delaunay::triangulation::flips::EdgeKey::new(vsk[a as usize], vsk[b as usize])).is_ok());
+                    if ok2 == Ok(true) && seen.insert(sig(&c2)) { frontier.insert(0, (c2, d + 1)); }
+                }
+            }
+        }
+    }
+}
+
+/// base simplex {0, s e_1, .., s e_{D-1}} in x_D = 0 with apexes (0, 1, .., 1, +-h): the segment
+/// joining the apexes meets the base on its face x_1 = 0
+fn boundary_bipyramid(d: usize, s: f64, h: f64) -> Vec<Vec<f64>> {
+    let mut pts: Vec<Vec<f64>> = vec![vec![0.0; d]];
+    for a in 0..d - 1 { let mut p = vec![0.0; d]; p[a] = s; pts.push(p); }
+    let mut up = vec![1.0; d]; up[0] = 0.0; up[d - 1] = h; pts.push(up.clone());
+    up[d - 1] = -h; pts.push(up);
+    pts
+}
+
+/// the two-cell complex {F + a, F + b} over the base of `boundary_bipyramid`, loaded as written
+/// (no construction, hence no perturbation): valid at Levels 1-3, and for small h not Delaunay with
+/// a k=2 flip of F that would create a flat cell
+fn two_cell<const D: usize>(id: &str, h: f64, rng: &mut Rng, out: &mut Out) {
+    let pts = boundary_bipyramid(D, 4.0, h);
+    let base: Vec<usize> = (0..D).collect();
+    let mut ca = base.clone(); ca.push(D);
+    let mut cb = base; cb.push(D + 1);
+    let Some(dt) = tri::load_complex::<D>(&pts, &[ca, cb], rng) else { return };
+    let mut ids = Ids::default();
+    out.case(id, "cx", &format!("D={D} fam=two_cell_bipyramid gp=0 g=1 kernel=fast expect=valid123 flips=0 removals=0"));
+    tri::export(&dt, &mut ids, out);
+    tri::observe_validators(&dt, out, true);
+    out.end();
+}
+
 pub fn run(cfg: &Cfg, rng: &mut Rng, out: &mut Out) {
+    for (k, h) in [1.0f64, 2.0, 3.0, 6.0].iter().enumerate() {
+        two_cell::<2>(&format!("tc2_{k}"), *h, rng, out);
+        two_cell::<3>(&format!("tc3_{k}"), *h, rng, out);
+        two_cell::<4>(&format!("tc4_{k}"), *h, rng, out);
+        two_cell::<5>(&format!("tc5_{k}"), *h, rng, out);
+    }
+    for d in 3..=5usize {
+        for (k, h) in [2.0f64, 3.0].iter().enumerate() {
+            let pts = boundary_bipyramid(d, 4.0, *h);
+            let id = format!("xb{d}_{k}");
+            match d { 3 => explore::<3>(&id, &pts, "boundary_bipyramid", 2, 12, rng, out), 4 => explore::<4>(&id, &pts, "boundary_bipyramid", 2, 12, rng, out), _ => explore::<5>(&id, &pts, "boundary_bipyramid", 2, 10, rng, out) }
+        }
+    }
     let thorough = cfg.tier == "thorough";
     let n = if thorough { 2000 } else { 400 };
     for i in 0..n {
